@@ -31,10 +31,10 @@ class PLTFMAType(TREElement):
             self.add_field('AC_POS_Z', 's', 9, value)
             self.add_field('AC_VEL_X', 's', 9, value)
             self.add_field('AC_VEL_Y', 's', 9, value)
-            self.add_field('AC_POS_Z', 's', 9, value)
+            self.add_field('AC_VEL_Z', 's', 9, value)
             self.add_field('AC_ACC_X', 's', 8, value)
             self.add_field('AC_ACC_Y', 's', 8, value)
-            self.add_field('AC_POS_Z', 's', 8, value)
+            self.add_field('AC_ACC_Z', 's', 8, value)
             self.add_field('AC_SPEED', 's', 5, value)
             self.add_field('ENTLOC', 's', 21, value)
             self.add_field('ENTALT', 's', 6, value)
